@@ -55,6 +55,9 @@ type WorldOpts struct {
 	// default builder, so a custom digester is only consistent at the root); defaults to Digester
 	RootDigester func() atree.DigesterBuilder
 	KeySpace     int
+	// SelfSet: now and then write a child container back into the slot it already occupies (Array.Set /
+	// OrderedMap.Set with the live handle, wrapped as it is stored): the library keeps the child attached
+	SelfSet bool
 }
 
 type World struct {
@@ -282,6 +285,61 @@ func (w *World) handleRemoved(st atree.Storable, s SV) {
 
 // ---------- operations ----------
 
+// liveValue returns the value to hand to the library for the container (possibly wrapped) recorded in s
+func liveValue(s SV) (atree.Value, bool) {
+	switch x := s.(type) {
+	case *svArr:
+		return x.arr, true
+	case *svMap:
+		return x.m, true
+	case *svSome:
+		if v, ok := liveValue(x.inner); ok {
+			return testutils.NewSomeValue(v), true
+		}
+	}
+	return nil, false
+}
+
+// selfSet writes the child container held in a slot back into that slot; the returned "previous" element is
+// the child itself and must not be disposed of; the shadow does not change
+func (w *World) selfSetArr(sa *svArr) bool {
+	var idx []int
+	for i, e := range sa.elems {
+		if _, ok := liveValue(e); ok {
+			idx = append(idx, i)
+		}
+	}
+	if len(idx) == 0 {
+		return false
+	}
+	i := idx[w.Rng.Intn(len(idx))]
+	v, _ := liveValue(sa.elems[i])
+	old, err := sa.arr.Set(uint64(i), v)
+	if err != nil || old == nil {
+		w.Fail("C10: writing a child container back into its own array slot failed", fmt.Sprint(err))
+	}
+	return true
+}
+
+func (w *World) selfSetMap(sm *svMap) bool {
+	var ks []atree.Value
+	for _, k := range sm.keys {
+		if _, ok := liveValue(sm.vals[keyStr(k)]); ok {
+			ks = append(ks, k)
+		}
+	}
+	if len(ks) == 0 {
+		return false
+	}
+	k := ks[w.Rng.Intn(len(ks))]
+	v, _ := liveValue(sm.vals[keyStr(k)])
+	old, err := sm.m.Set(testutils.CompareValue, testutils.GetHashInput, k, v)
+	if err != nil || old == nil {
+		w.Fail("C10: writing a child container back under its own map key failed", fmt.Sprint(err))
+	}
+	return true
+}
+
 func (w *World) arrInsert(sa *svArr, i uint64, depth int) {
 	v, s := w.newValue(depth)
 	var err error
@@ -416,6 +474,10 @@ func (w *World) Step() string {
 	switch x := c.s.(type) {
 	case *svArr:
 		n := uint64(len(x.elems))
+		if w.Opts.SelfSet && r.Chance(3) && w.selfSetArr(x) {
+			w.Rep.Op("arr.selfset")
+			return "arr.selfset"
+		}
 		if r.Chance(3) {
 			// a request that must be rejected and leave no trace: insert beyond the end of a value whose
 			// Storable() would have side effects (a large string, a fresh small container)
@@ -492,6 +554,10 @@ func (w *World) Step() string {
 			return "skip"
 		}
 	case *svMap:
+		if w.Opts.SelfSet && r.Chance(3) && w.selfSetMap(x) {
+			w.Rep.Op("map.selfset")
+			return "map.selfset"
+		}
 		switch op := r.Pick(50, 28, 2, 1); {
 		case op == 0 || len(x.keys) == 0:
 			w.mapSet(x, w.randKey(), c.depth+1)
